@@ -44,7 +44,7 @@ func NewDG7(data []byte) (*DG7, error) {
 		return nil, fmt.Errorf("[NewDG7] error: %w", err)
 	}
 
-	rootNode := nodes.NodeByTag(DG7Tag)
+	rootNode := lookupRootNode(nodes, DG7Tag)
 
 	if !rootNode.IsValidNode() {
 		return nil, fmt.Errorf("root node (%x) missing", DG7Tag)
